@@ -20,12 +20,12 @@ def queries():
             qs.append(Query('radix_bucket_r%d_u%d' % (radix, bits), SRC, 'h_radix_bucket',
                             'BucketComputation<%d, %s>: all limit <= m <= x <= y over the full %d-bit domain: index range, monotonicity, bucket 0, redistribution, bounds' % (radix, ty, bits),
                             defs=['RADIX=%d' % radix, 'RINT=' + ty], tiers=('quick', 'thorough') if quick else ('thorough',), timeout=900 if quick else 3600, unwind=70, max_unwind=80))
-    SCRIPTS_Q = ['ppok', 'ppsk', 'epto', 'pok']
+    SCRIPTS_Q = ['ppok', 'ppsk', 'epto', 'pok', 'ppot']
     SCRIPTS_T = ['pppo', 'ppso', 'pospk', 'ppcpk', 'ppopt', 'pepsp', 'ppoppk', 'pposk', 'eesok', 'ptptpt']
     for radix in (2, 4, 16):
         for key in ('uint8_t', 'int8_t'):
             for sc in SCRIPTS_Q + SCRIPTS_T:
-                quick = sc in SCRIPTS_Q and radix == 4 and key == 'uint8_t' or (sc == 'ppsk' and radix == 2 and key == 'int8_t')
+                quick = sc in SCRIPTS_Q and radix == 4 and key == 'uint8_t' or (sc == 'ppsk' and radix == 2 and key == 'int8_t') or (sc == 'ppot' and radix == 2)   # radix 2: a key equal to the largest value of the key type meets the empty-bucket sentinel
                 qs.append(Query('radixheap_r%d_%s_%s' % (radix, key.replace('_t', ''), sc), SRC, 'h_radixheap',
                                 'RadixHeap<%s keys, radix %d>: scripted operation kinds "%s" (p push, e emplace, t top, o pop, k peak_top_key, s swap_top_bucket, c clear) with symbolic monotone 8-bit keys, vs multiset model (at most 4 stored elements)' % (key, radix, sc),
                                 defs=['RADIX=%d' % radix, 'RKEY=' + key, 'H=%d' % len(sc), 'SCRIPT="%s"' % sc, 'RINT=uint32_t'], link=['tlx/die/core.cpp'], ll2c=['--alloc-cap', '8'], tiers=('quick', 'thorough') if quick else ('thorough',),
